@@ -224,11 +224,15 @@ def pool(contract, seed=0, limit=4000):
     if key.startswith("spec.lemma_stubs:vals_"):
         # lemma carriers: real elements, their real validator lists, real values (shows the hypotheses are satisfiable and
         # evaluates the conclusion natively)
+        only_classes = "cls" in (contract.inst or "")
+
         def triples():
             for mk in element_makers():
                 try:
                     from spec import pyspec
                     e = mk()
+                    if only_classes and not isinstance(e, type):
+                        continue
                     vs = pyspec.validators_of(e)
                 except Exception:
                     continue
